@@ -272,3 +272,27 @@ Definition check_C04 (links : list (option nat)) (locals : list bool) (t : list 
 (* verdict codes of all actors (0 = accepted); used to report which rule failed *)
 Definition codes (n : nat) (t : list tev) : list nat :=
   map (fun i => code_of (arun i ast0 t)) (seq 0 n).
+
+(* ---------- C04, the "at least once" half, for complete (quiescent) traces ---------- *)
+(* If child c was started successfully (start() returned Ok, so it was linked to its supervisor s
+   and marked running) and has ended (its task completed or was aborted), and at the end of the
+   trace s is alive and idle between handlers, then s has handled a terminal event about c. *)
+Definition ended (c : nat) (t : list tev) : bool :=
+  has_ev (fun e => match e with TJoin j | TAborted j => Nat.eqb j c | _ => false end) t.
+Definition started_ok (c : nat) (t : list tev) : bool :=
+  has_ev (fun e => match e with TSpawnRet j true => Nat.eqb j c | _ => false end) t.
+Definition idle_alive_at_end (s : nat) (t : list tev) : bool :=
+  match arun s ast0 t with
+  | Go st => match s_phase st with PRun => negb (s_stopreq st) && negb (s_killed st) && negb (s_grace st) | _ => false end
+  | Bad _ => false
+  end.
+
+Definition check_C04_complete (links : list (option nat)) (t : list tev) : bool :=
+  forallb (fun c =>
+    match nth c links None with
+    | Some s =>
+      if started_ok c t && ended c t && idle_alive_at_end s t
+      then Nat.ltb 0 (count_sup s (fun y => is_terminal y && Nat.eqb (about y) c) t)
+      else true
+    | None => true
+    end) (seq 0 (length links)).
